@@ -429,7 +429,7 @@ func (s *signer) geValue(a, b ssa.Value, k int64, pt point, q *signQuery, depth 
 	if ea, ok := a.(*ssa.Extract); ok {
 		if eb, ok := b.(*ssa.Extract); ok && ea.Tuple == eb.Tuple {
 			if c, ok := ea.Tuple.(*ssa.Call); ok {
-				if g := c.Call.StaticCallee(); g != nil && g.Pkg != nil && g.Pkg.Pkg.Path() == twigPath && len(g.Blocks) > 0 && depth < 4 {
+				if g := c.Call.StaticCallee(); g != nil && isTwigFn(g) && len(g.Blocks) > 0 && depth < 4 {
 					all, n := true, 0
 					instrsOf(g, func(in ssa.Instruction) {
 						ret, isRet := in.(*ssa.Return)
